@@ -194,6 +194,24 @@ def c04(R):
         if gstar - gp >= eps * (1 + 1e-6) + 1e-9: R.fail("c04.policy_gain_within_eps", "returned policy's average reward not within epsilon of optimal", inp, gp, gstar)
         res = bellman(ns, r, p, 1.0, V) - V - gain
         if np.abs(res).max() >= eps * (1 + 1e-6) + 1e-9: R.fail("c04.aroe_residual", "values do not solve the average-reward optimality equation within epsilon", inp, float(np.abs(res).max()), eps)
+    # ... nor of how often solve() was called: again on the converged solver, and in chunks of one sweep
+    for t, N, A, E, ns, r, p in mdps(2, unichain=True):
+        if E < 2: ns, r, p = rand_mdp(rng, N, A, 2, unichain=True); E = 2
+        eps = 1e-4; v0 = rng.normal(0, 5, N); gstar = optimal_gain_lp(ns, r, p)
+        s = RVI(Tab(ns, r, p, v0), epsilon=eps, verbose=0); st = s.solve(5000); n1 = int(st.info.iteration)
+        inp = desc(N, A, E, epsilon=eps, v0=v0, **tables(ns, r, p))
+        if n1 < 5000:
+            st2 = s.solve(50); R.case((N, A, E, "solve_twice"), None)
+            V2 = np.asarray(st2.values); res2 = bellman(ns, r, p, 1.0, V2) - V2 - float(st2.info.gain)
+            if abs(float(st2.info.gain) - gstar) >= eps * (1 + 1e-6) + 1e-9 or np.abs(res2).max() >= eps * (1 + 1e-6) + 1e-9:
+                R.fail("c04.gain_within_eps", "solve() called again on the converged solver reports a gain / values that are not within epsilon", dict(inp, history="solve(); solve()", first_stop=n1), float(st2.info.gain), gstar)
+            sc = RVI(Tab(ns, r, p, v0), epsilon=eps, verbose=0); R.case((N, A, E, "chunks_of_one"), None)
+            for _ in range(n1 + 3):
+                stc = sc.solve(1)
+                if int(stc.info.iteration) < _ + 1: break
+            Vc = np.asarray(stc.values); conv_c = span(bellman(ns, r, p, 1.0, Vc) - Vc) < eps
+            if conv_c and abs(float(stc.info.gain) - gstar) >= eps * (1 + 1e-6) + 1e-9:
+                R.fail("c04.gain_within_eps", "a run driven by solve(1) calls reports a gain that is not within epsilon of the optimal average reward at convergence", dict(inp, history="solve(1) repeated"), float(stc.info.gain), gstar)
     # the reported gain is a property of the iterates, not of how the run was driven: restored from a checkpoint (converged or not) and solved on
     import tempfile, shutil, os
     from mdpax.problems import Forest
@@ -313,6 +331,14 @@ def c07(R):
             if not close(np.asarray(s.value_history)[0], v0): R.fail("c07.history_slot0_is_initial_values", "ring buffer slot 0 does not hold the initial values after construction", inp, np.asarray(s.value_history)[0], v0)
             st = s.solve(40); it, V, ex = reference_run("pvi", ns, r, p, g, eps, v0, 40, P)
             if int(st.info.iteration) != it: R.fail("c07.stop_at_first_full_period", "stop decision at n == period differs from the documented measure (V_n - V_(n-period) with V_0 the initial values)", inp, int(st.info.iteration), it)
+    # integer-TYPED initial value estimates (a problem whose initial_value returns 0 or -state[0]): the iterates are floats all the same
+    for t, N, A, E, ns, r, p in mdps(2, unichain=True):
+        for P, g in [(2, 1.0), (2, 0.9), (3, 0.95)]:
+            v0i = rng.integers(-3, 4, N); eps = 1e-3
+            s = PVI(Tab(ns, r, p, v0i), period=P, gamma=g, epsilon=eps, verbose=0, clear_value_history_on_convergence=False); st = s.solve(400)
+            inp = desc(N, A, E, period=P, gamma=g, epsilon=eps, v0=v0i, note="integer-typed initial values", **tables(ns, r, p)); R.case((N, A, E, P, g, "int_v0"), {x: inp[x] for x in ("N", "period", "gamma", "note")})
+            it, V, ex = reference_run("pvi", ns, r, p, g, eps, v0i.astype(float), 400, P)
+            if int(st.info.iteration) != it or not close(st.values, V, 1e-8): R.fail("c07.stop_and_values", "periodic VI differs from plain VI iterates stopped by the documented period-span rule (integer-typed initial values)", inp, int(st.info.iteration), it)
     # the stop rule is a property of the iterates, not of how the run was driven: continued by a second solve() call, and restored from a checkpoint
     # taken fewer than `period` sweeps before the documented stopping iteration
     import tempfile, shutil, os
